@@ -79,4 +79,31 @@ reg(
     TRUSTED + "In singular solves only fixed vertices and flags are judged (scipy may return NaN or garbage for free unknowns).",
 )
 
+reg(
+    "C05",
+    "DESIGN.md section 4 C05",
+    "property-based testing (Hypothesis): generated SE(2)/SE(3) graphs inside a calibrated neighbourhood; stationarity measured by the Newton decrement of an independent dense reference system; ground-truth recovery for noise-free graphs",
+    "Generated-input search over SE2/SE3 graphs of 3..40 poses with landmarks (rotated offsets), loop closures, multi-edges, several fixed vertices and "
+    "cross-term information, started inside the stated neighbourhood (perturbation <= 0.3/0.3 rad, noise <= 0.05/cond): chi2 never increases, the reference "
+    "Newton decrement at the returned state is <= tol*chi2 + floor (observed <= 0.02 of the bound over 1.6e4 runs), final_chi2 equals the reference chi2, and noise-free "
+    "graphs reproduce the ground truth to 1e-6. Nothing is claimed outside the neighbourhood.",
+    TRUSTED + "The neighbourhood bounds are calibration results, stated in DESIGN.md.",
+)
+reg(
+    "C07",
+    "DESIGN.md section 4 C07",
+    "property-based testing (Hypothesis): metamorphic relation between a generated graph and its image under a generated rigid transform (built with the reference model)",
+    "Generated-input metamorphic search: for graphs of every family and transforms with any rotation (incl. ~180 degrees) and translations up to 1e6, every edge error and chi2 "
+    "are unchanged and k = 1..5 optimizer iterations commute with the transform, vertex by vertex (1e-8 scaled by the magnitudes involved).",
+    TRUSTED + "Trajectory comparison restricted to the numerically stable regime (C05 neighbourhood, cond(H) <= 1e8).",
+)
+reg(
+    "C08",
+    "DESIGN.md section 4 C08",
+    "property-based testing (Hypothesis): metamorphic relations under 7 generated representation changes (vertex/edge permutation, id relabelling, 2*pi shifts, quaternion negation, edge splitting, information scaling)",
+    "Generated-input metamorphic search: chi2, k-iteration trajectories, default-optimize results and reports are compared between a generated graph and its re-representation. "
+    "Quaternion negation is exercised with and without translation-rotation cross terms in the information. Found and repaired defect F2 (commit f929ed2).",
+    TRUSTED + "Report equality is skipped (counted) when a stopping comparison is within rounding of its threshold; edges at a 180-degree residual are skipped for quaternion negation.",
+)
+
 NOT_YET = {}
